@@ -896,7 +896,7 @@ namespace
                     }
                     if (!r.p)
                     {
-                        if (op.n)
+                        if (op.n && !c.reports_failure_by_null()) // aligned_malloc reports failure by nullptr; the allocator must throw
                             out.violate("C18/no-throw-on-failure", "allocate returned nullptr without throwing");
                         continue;
                     }
